@@ -1588,11 +1588,13 @@ class Interp:
             if k_ == "lit":
                 return p_.get("text", "?").replace(" ", "")
             if k_ in ("slice", "tuple"):
-                return "[" + ",".join(_pat_text(x) for x in p_["elems"]) + "]"
+                parts_ = [_pat_text(x) for x in p_["elems"]]
+                return None if any(x is None for x in parts_) else "[" + ",".join(parts_) + "]"
             if k_ == "range":
                 return f"{p_.get('lo')}..{'=' if p_.get('closed') else ''}{p_.get('hi')}"
             if k_ == "or":
-                return "|".join(_pat_text(x) for x in p_["cases"])
+                parts_ = [_pat_text(x) for x in p_["cases"]]
+                return None if any(x is None for x in parts_) else "|".join(parts_)
             return None
         symbolic = isinstance(v, (Sym, Poly)) or (isinstance(v, VOpaque) and v.args and not concrete_opt and "::" not in v.name)
         if symbolic and all(a["guard"] is None for a in arms) and all(a["pat"]["k"] in ("wild", "ident") or _pat_text(a["pat"]) for a in arms):
@@ -2072,7 +2074,7 @@ class Interp:
                 continue
         if ast is None:
             ast, _where = self.find_helper(m, True)
-        if ast is None and isinstance(recv, Sym) and recv.path == "self" and tn not in ("__helper__", "__opassign__"):
+        if ast is None and ((isinstance(recv, Sym) and recv.path == "self") or isinstance(recv, VStruct)) and tn not in ("__helper__", "__opassign__"):
             # a method of the unit's own type defined in ANOTHER file of the crate (`impl Composer` is spread over src/composer/*.rs)
             for rel2 in _crate_files(root):
                 if rel2 == rel:
@@ -2322,6 +2324,20 @@ class Interp:
             return VIter([self.call_closure(args[0], [x]) for x in recv.items])
         if m == "enumerate" and isinstance(recv, VIter):
             return VIter([VTuple([i, x]) for i, x in enumerate(recv.items)])
+        if m in ("rev", "into_iter", "iter") and isinstance(recv, VRange) and not args \
+                and all(isinstance(x, int) and not isinstance(x, bool) for x in (recv.lo, recv.hi)) and recv.hi - recv.lo <= 4096:
+            seq_ = list(range(int(recv.lo), int(recv.hi)))
+            return VIter(seq_[::-1] if m == "rev" else seq_)
+        if m == "as_flattened" and isinstance(recv, VArr) and not args and all(isinstance(x, VArr) for x in recv.items):
+            return VArr([y for x in recv.items for y in x.items], "slice")
+        if m == "windows" and isinstance(recv, VArr) and len(args) == 1 and isinstance(args[0], int) and args[0] > 0:
+            k_ = int(args[0])
+            return VIter([VView(recv, i_, i_ + k_) for i_ in range(0, len(recv.items) - k_ + 1)])
+        if m == "next" and isinstance(recv, VIter) and not args:
+            # a concrete iterator held in a `let mut` binding: consumed from the front
+            return VOpaque("Some", [recv.items.pop(0)]) if recv.items else VOpaque("None")
+        if m == "map" and isinstance(recv, VArr) and recv.kind == "array" and len(args) == 1 and isinstance(args[0], VClosure):
+            return VArr([self.call_closure(args[0], [x]) for x in list(recv.items)], "array")      # <[T; N]>::map
         if m == "rev" and isinstance(recv, VIter):
             return VIter(list(reversed(recv.items)))
         if m == "sum" and isinstance(recv, VIter):
